@@ -3,7 +3,8 @@
 (* Meaning of scalar $filter expressions over one row.                     *)
 (*                                                                         *)
 (* Values:  NULL | <<"i", n>> | <<"s", cps>> | <<"b", TRUE/FALSE>>         *)
-(*          | <<"t", y, mo, d, h, mi, s>>                                  *)
+(*          | <<"t", y, mo, d, h, mi, s>> | <<"d", y, mo, d>>              *)
+(*          | <<"tod", h, mi, s>> | <<"dur", seconds>>   (module Temporal) *)
 (* Logic is Kleene three-valued (and / or / not); arithmetic, comparisons  *)
 (* and functions propagate NULL; `x eq null` / `x ne null` (literal null   *)
 (* on either side) are null tests; `in` is a disjunction of equalities;    *)
@@ -15,7 +16,7 @@
 (* NOT OData but that a known finding attributes to a backend; with {}     *)
 (* this module is the reference.                                           *)
 (***************************************************************************)
-EXTENDS Ast
+EXTENDS Ast, Temporal
 CONSTANT Deviations
 
 NULL == <<"null">>
@@ -50,8 +51,10 @@ ArithQ(o, a, b) ==
     [] o = "sub" -> NormQ(p1 * q2 - p2 * q1, q1 * q2)
     [] o = "mul" -> NormQ(p1 * p2, q1 * q2)
     [] o = "div" -> IF p2 = 0 THEN NULL ELSE NormQ(Sgn(p2) * p1 * q2, q1 * Abs(p2))
+IsTemporal(a) == a[1] \in {"t", "d", "tod", "dur"}
 Arith(o, a, b) ==
   IF a = NULL \/ b = NULL THEN NULL
+  ELSE IF IsTemporal(a) \/ IsTemporal(b) THEN TmArith(o, a, b)
   ELSE IF a[1] = "q" \/ b[1] = "q" THEN ArithQ(o, a, b)
   ELSE IF o \in {"div", "mod"} /\ b[2] = 0 THEN NULL            \* excluded by the generators; SQLite yields NULL
   ELSE IV(CASE o = "add" -> a[2] + b[2] [] o = "sub" -> a[2] - b[2] [] o = "mul" -> a[2] * b[2]
@@ -65,7 +68,8 @@ IsNum(a) == a[1] \in {"i", "q"}
 Lt(a, b) == CASE IsNum(a) -> NumOf(a) * DenOf(b) < NumOf(b) * DenOf(a)
               [] a[1] = "s" -> SeqLt(a[2], b[2])
               [] a[1] = "b" -> (~a[2]) /\ b[2]
-              [] a[1] \in {"t", "d"} -> SeqLt(Tail(a), Tail(b))
+              [] a[1] \in {"t", "d", "tod"} -> SeqLt(Tail(a), Tail(b))
+              [] a[1] = "dur" -> a[2] < b[2]
 Compare(o, a, b) ==
   IF a = NULL \/ b = NULL THEN NULL
   ELSE LET same == IF IsNum(a) THEN NumOf(a) * DenOf(b) = NumOf(b) * DenOf(a) ELSE a = b IN
@@ -110,23 +114,19 @@ StrFn2(f, a0, b0, patternIsLiteral) ==
          [] f = "concat"     -> SV(a[2] \o b[2])
 
 \* ------------------------------------------------------------------ literals
-DateTimeLits == [ x \in {"2019-12-31T23:59:59", "2020-02-29T00:00:00", "2021-01-01T10:05:00", "2020-02-29T00:00:01"} |->
-                    CASE x = "2019-12-31T23:59:59" -> TV(2019, 12, 31, 23, 59, 59)
-                      [] x = "2020-02-29T00:00:00" -> TV(2020, 2, 29, 0, 0, 0)
-                      [] x = "2021-01-01T10:05:00" -> TV(2021, 1, 1, 10, 5, 0)
-                      [] x = "2020-02-29T00:00:01" -> TV(2020, 2, 29, 0, 0, 1) ]
 FloatLits == [ x \in {"2.0", "0.5", "1.5", "2.5", "-0.5"} |->
                  CASE x = "2.0" -> QV(2, 1) [] x = "0.5" -> QV(1, 2) [] x = "1.5" -> QV(3, 2) [] x = "2.5" -> QV(5, 2)
                    [] x = "-0.5" -> QV(-1, 2) ]
-DateLits == [ x \in {"2020-02-29", "2019-12-31", "2021-01-01"} |->
-                CASE x = "2020-02-29" -> <<"d", 2020, 2, 29>> [] x = "2019-12-31" -> <<"d", 2019, 12, 31>> [] x = "2021-01-01" -> <<"d", 2021, 1, 1>> ]
 LitVal(k, v) == CASE k = "Null" -> NULL
                   [] k = "Integer" -> IV(v)
                   [] k = "Float" -> FloatLits[v]
                   [] k = "String" -> SV(v)
                   [] k = "Boolean" -> BV(v = "true")
-                  [] k = "DateTime" -> DateTimeLits[v]
-                  [] k = "Date" -> DateLits[v]
+                  \* temporal literals: the value is computed from the literal's text (module Temporal)
+                  [] k = "DateTime" -> TmDateTimeOf(StrCps(v))
+                  [] k = "Date" -> TmDateOf(StrCps(v))
+                  [] k = "Time" -> TmTimeOf(StrCps(v))
+                  [] k = "Duration" -> TmDurationOf(StrCps(v))
 
 \* ------------------------------------------------------------------ evaluation
 IsNullLit(t) == t[1] = "Lit" /\ t[2] = "Null"
@@ -155,9 +155,10 @@ ApplyFn(f, vals, patLit) ==
     [] f = "year"   -> IF a = NULL THEN NULL ELSE IV(a[2])
     [] f = "month"  -> IF a = NULL THEN NULL ELSE IV(a[3])
     [] f = "day"    -> IF a = NULL THEN NULL ELSE IV(a[4])
-    [] f = "hour"   -> IF a = NULL THEN NULL ELSE IV(a[5])
-    [] f = "minute" -> IF a = NULL THEN NULL ELSE IV(a[6])
-    [] f = "second" -> IF a = NULL THEN NULL ELSE IV(a[7])
+    [] f = "time"   -> IF a = NULL THEN NULL ELSE <<"tod", a[5], a[6], a[7]>>
+    [] f = "hour"   -> IF a = NULL THEN NULL ELSE IV(IF a[1] = "tod" THEN a[2] ELSE a[5])
+    [] f = "minute" -> IF a = NULL THEN NULL ELSE IV(IF a[1] = "tod" THEN a[3] ELSE a[6])
+    [] f = "second" -> IF a = NULL THEN NULL ELSE IV(IF a[1] = "tod" THEN a[4] ELSE a[7])
 EvalCall(f, args, env) == ApplyFn(f, [i \in 1..Len(args) |-> Eval(args[i], env)], Len(args) >= 2 /\ args[2][1] = "Lit")
 Eval(t, env) ==
   CASE t[1] = "Id"   -> env[t[3]]
@@ -165,7 +166,8 @@ Eval(t, env) ==
     [] t[1] = "Bin"  -> Arith(t[2], Eval(t[3], env), Eval(t[4], env))
     [] t[1] = "Un"   -> IF t[2] = "not" THEN Not3(Eval(t[3], env))
                         ELSE LET a == Eval(t[3], env) IN
-                             IF a = NULL THEN NULL ELSE IF a[1] = "q" THEN QV(-a[2], a[3]) ELSE IV(-a[2])
+                             IF a = NULL THEN NULL ELSE IF a[1] = "q" THEN QV(-a[2], a[3])
+                             ELSE IF a[1] = "dur" THEN <<"dur", -a[2]>> ELSE IV(-a[2])
     [] t[1] = "Bool" -> IF t[2] = "and" THEN And3(Eval(t[3], env), Eval(t[4], env)) ELSE Or3(Eval(t[3], env), Eval(t[4], env))
     [] t[1] = "Cmp"  ->
          IF t[2] = "in" THEN
